@@ -6,6 +6,7 @@ import DoltVerif.Lemmas.BranchControlFoldLike
 import DoltVerif.Lemmas.BranchControlNs
 import DoltVerif.Lemmas.BranchControlTrie
 import DoltVerif.Lemmas.BranchControlTrieOps
+import DoltVerif.Lemmas.BranchControlColumns
 /-!
 C38 — Branch permissions follow the rule table's documented matching.  Property theorems only
 (helper lemmas live in `Lemmas/BranchControl*.lean`).  Statements are about
@@ -438,5 +439,87 @@ example : Namespace.canCreate (fun r => (r : Int)) (fun r => (r : Int))
       [⟨[97], [97, pct], [98], [pct]⟩, ⟨[97], [pct], [97], [pct]⟩] [97] [97, 97] [97] [104] = false ∧
     Namespace.canCreate (fun r => (r : Int)) (fun r => (r : Int))
       [⟨[97], [97, pct], [98], [pct]⟩, ⟨[97], [pct], [97], [pct]⟩] [97] [97, 97] [98] [104] = true := by decide
+
+/-! ## 6. end to end: what the trie reports = the LIKE-matching rules with their pattern lengths -/
+
+/-- the concatenation `MatchNode.parseExpression` builds from four columns -/
+def key4 (p1 p2 p3 p4 : List Int) : List Int :=
+  columnMarker :: p1 ++ columnMarker :: p2 ++ columnMarker :: p3 ++ columnMarker :: p4
+
+/-- a rule key as `Access.Insert` produces it: four folded column patterns (sort orders ≥ 0, `_`, `%`) -/
+def IsRuleKey (k : List Int) : Prop :=
+  ∃ p1 p2 p3 p4, k = key4 p1 p2 p3 p4 ∧
+    (folded p1 = true ∧ folded p2 = true ∧ folded p3 = true ∧ folded p4 = true) ∧
+    (plainPat p1 ∧ plainPat p2 ∧ plainPat p3 ∧ plainPat p4)
+
+theorem parse4_eq_key4 (ai bin : Rune → Int) (db br us ho : List Rune) :
+    parse4 ai bin db br us ho = key4 (parse ai db) (parse ai br) (parse bin us) (parse ai ho) := by
+  simp [parse4, key4]
+
+theorem finalRules_keys (P : List Int → Prop) : ∀ (ops : List TrieOp) (rs : List (List Int × Data)),
+    (∀ kd ∈ rs, P kd.1) → (∀ op ∈ ops, P op.key) → ∀ kd ∈ ops.foldl applyRule rs, P kd.1 := by
+  intro ops
+  induction ops with
+  | nil => intro rs h _; simpa using h
+  | cons op ops ih =>
+    intro rs hrs hops
+    simp only [List.foldl_cons]
+    apply ih
+    · intro kd hkd
+      cases op with
+      | add k d =>
+        simp only [applyRule, List.mem_append, List.mem_filter, List.mem_singleton] at hkd
+        rcases hkd with ⟨h, _⟩ | rfl
+        · exact hrs kd h
+        · exact hops (.add k d) (by simp)
+      | remove k =>
+        simp only [applyRule, List.mem_filter] at hkd
+        exact hrs kd hkd.1
+    · exact fun o ho => hops o (by simp [ho])
+
+/-- **`trie_match_like`**: for every `Add`/`Remove` history of rule keys (side condition: the trie has
+no bare `[%]` child) and every plain request (four columns of non-negative sort orders), the trie
+reports exactly: for each rule of the final table all of whose four columns LIKE-match, its data with
+the length of its key.  Together with `access_longest_match_spec` this is the property's first
+sentence for `Access.Match`. -/
+theorem trie_match_like (ops : List TrieOp) (hk : ∀ op ∈ ops, IsRuleKey op.key)
+    (hna : noAnyLeafN (runOps ops) = true) (s1 s2 s3 s4 : List Int)
+    (hs : (∀ c ∈ s1, 0 ≤ c) ∧ (∀ c ∈ s2, 0 ≤ c) ∧ (∀ c ∈ s3, 0 ≤ c) ∧ (∀ c ∈ s4, 0 ≤ c)) (r : Data × Nat) :
+    r ∈ (runOps ops).matchTokens (key4 s1 s2 s3 s4) ↔
+      ∃ kd ∈ finalRules ops, ∃ p1 p2 p3 p4, kd.1 = key4 p1 p2 p3 p4 ∧
+        (plainPat p1 ∧ plainPat p2 ∧ plainPat p3 ∧ plainPat p4) ∧
+        (folded p1 = true ∧ folded p2 = true ∧ folded p3 = true ∧ folded p4 = true) ∧
+        likeSpec p1 s1 = true ∧ likeSpec p2 s2 = true ∧ likeSpec p3 s3 = true ∧ likeSpec p4 s4 = true ∧
+        r = (kd.2, kd.1.length) := by
+  have hk' : ∀ op ∈ ops, op.key.head? = some columnMarker := by
+    intro op hop
+    obtain ⟨p1, p2, p3, p4, he, _⟩ := hk op hop
+    rw [he]; rfl
+  have hkeys := finalRules_keys IsRuleKey ops [] (by simp) hk
+  rw [trie_eq_direct_partial ops hk' hna]
+  constructor
+  · rintro ⟨kd, hkd, h⟩
+    obtain ⟨p1, p2, p3, p4, he, hf, hp⟩ := hkeys kd hkd
+    have hne : kd.1 ≠ [] := by rw [he]; simp [key4]
+    obtain ⟨hacc, hr⟩ := (direct_iff kd.1 kd.2 hne _ r).mp h
+    rw [he] at hacc
+    simp only [key4] at hacc
+    rw [dacc_parse4 p1 p2 p3 p4 s1 s2 s3 s4 hf hp hs] at hacc
+    simp only [Bool.and_eq_true] at hacc
+    exact ⟨kd, hkd, p1, p2, p3, p4, he, hp, hf, hacc.1.1.1, hacc.1.1.2, hacc.1.2, hacc.2, hr⟩
+  · rintro ⟨kd, hkd, p1, p2, p3, p4, he, hp, hf, h1, h2, h3, h4, hr⟩
+    refine ⟨kd, hkd, ?_⟩
+    have hne : kd.1 ≠ [] := by rw [he]; simp [key4]
+    apply (direct_iff kd.1 kd.2 hne _ r).mpr
+    refine ⟨?_, hr⟩
+    rw [he]
+    simp only [key4]
+    rw [dacc_parse4 p1 p2 p3 p4 s1 s2 s3 s4 hf hp hs]
+    simp [h1, h2, h3, h4]
+
+/-- non-vacuity: a rule key as `parse4` builds it -/
+example : IsRuleKey (key4 [5] [anyMatch] [7, singleMatch] [anyMatch]) :=
+  ⟨[5], [anyMatch], [7, singleMatch], [anyMatch], rfl, by decide, by
+    refine ⟨?_, ?_, ?_, ?_⟩ <;> intro x hx <;> simp at hx <;> rcases hx with rfl | rfl <;> simp [singleMatch, anyMatch]⟩
 
 end DoltVerif.C38
